@@ -173,6 +173,19 @@ impl<'tcx> Cx<'tcx> {
             }
             Some(other) => {
                 let mut done = false;
+                if let ConstValue::Slice { alloc_id, meta } = other {
+                    if let ty::Ref(_, inner, _) = ty.kind() {
+                        if inner.is_str() && meta <= 4096 {
+                            if let rustc_middle::mir::interpret::GlobalAlloc::Memory(a) = self.tcx.global_alloc(alloc_id) {
+                                let bytes = a.inner().inspect_with_uninit_and_ptr_outside_interpreter(0..meta as usize);
+                                if let Ok(st) = std::str::from_utf8(bytes) {
+                                    let _ = write!(s, ",\"str\":{}", esc(st));
+                                    done = true;
+                                }
+                            }
+                        }
+                    }
+                }
                 if let ty::Adt(adt, _) = ty.kind() {
                     if adt.is_enum() || adt.is_struct() {
                         if let Some(d) = self.tcx.try_destructure_mir_constant_for_user_output(other, ty) {
